@@ -101,9 +101,15 @@ main_c19(void)
             }
         }
     }
+#ifdef FIXED_FILTERS
+    between = 0;
+    min_span = 0;
+    max_time = max_times[3];
+#else
     between = sym_choice("between", 0, 1);
     min_span = (double) sym_choice("min_span", 0, 2);
     max_time = max_times[sym_choice("max_time", 0, 3)];
+#endif
     if (between) {
         /* first node against the rest */
         set_sizes[0] = 1;
